@@ -1,7 +1,13 @@
-"""C01: see DESIGN.md section 3."""
-import c10
+"""C01 sequential reads equal a flat reference disk.
+(1) proof gate: coq/Props/C01.v - theorems over the cluster-level device model (every history, every allocation
+    choice accepted by the guard: reads equal the flat-disk view; the executable invariant check is sound);
+(2) correspondence of that model with the library on sampled histories (checks/devsim.py);
+(3) the FlatDisk oracle on every read of histories over library-formatted and independently built images
+    (large sparse disks, v2, backing chains, compressed clusters: geometries the model run does not cover)."""
+import c10, common
 
 
 def run(tier, seed, replay):
     n = 60 if tier == 'quick' else 1500
-    return c10.run_foreign('C01', tier, seed, ('read', 'api', 'open', 'setup'), n, 'FlatDisk oracle on every read (incl. a full sweep) of histories over library-formatted and independently built images (data/zero/compressed/backing chains).', plain_n=(90 if tier == 'quick' else 1500))
+    gate = common.proof_gate('C01', ['Model/Dev.v', 'Proofs/DevProps.v', 'Props/C01.v'])
+    return c10.run_foreign('C01', tier, seed, ('read', 'api', 'open', 'setup'), n, 'Theorems over the device model (Props/C01.v) + model/library correspondence + FlatDisk oracle on every read (incl. a full sweep) of histories over library-formatted and independently built images.', plain_n=(90 if tier == 'quick' else 1500), level='proof', gate=gate, sim_n=(60 if tier == 'quick' else 1500))
